@@ -315,6 +315,60 @@ def nextBack (it : IntoIter K) : IntoIter K × Option Nat :=
 def sizeHintPair (it : IntoIter K) : Nat × Option Nat :=
   if it.sizeHint < usizeMax then (it.sizeHint, some it.sizeHint) else (usizeMax, none)
 
+/-- iter.rs:353 `ExactSizeIterator::len` (64-bit targets only): `self.size_hint as usize` — *not*
+    `size_hint().0` (the two agree because the counter is a `u64`, `exactLen_eq`) -/
+def exactLen (it : IntoIter K) : Nat := it.sizeHint % 18446744073709551616
+
+/-- core `Iterator::fold` default, `while let Some(x) = self.next() { acc = f(acc, x) }`: what `treemap::Iter`
+    (which overrides neither `fold` nor `rfold`) runs, and the loop `IntoIter::fold` is proved equal to
+    (`IntoIter.fold_mirror_eq`).  `fuel` bounds the number of `Some` results. -/
+def foldNext {β : Type} (f : β → Nat → β) : Nat → IntoIter K → β → β
+  | 0, _, acc => acc
+  | fuel + 1, it, acc =>
+    match it.next with
+    | (it', some x) => foldNext f fuel it' (f acc x)
+    | (_, none) => acc
+
+/-- core `DoubleEndedIterator::rfold` default: `while let Some(x) = self.next_back()` -/
+def rfoldNextBack {β : Type} (f : β → Nat → β) : Nat → IntoIter K → β → β
+  | 0, _, acc => acc
+  | fuel + 1, it, acc =>
+    match it.nextBack with
+    | (it', some x) => rfoldNextBack f fuel it' (f acc x)
+    | (_, none) => acc
+
+end IntoIter
+
+/-! ### the specialised `fold` / `rfold` of `treemap::IntoIter` (iter.rs:328 / 344), over the mirrored 32-bit iterator
+
+`IntoIter::fold(self, init, f) = self.inner.fold(init, f)` with `inner : FlatMap<btree_map::IntoIter, To64IntoIter, _>`,
+i.e. std's `FlattenCompat::fold` (`iter_fold`): the `frontiter` if there is one, then every remaining partition
+through `to64intoiter(p).fold`, then the `backiter`; `rfold` the other way round (`iter_rfold`).  Each
+`To64IntoIter::fold` (iter.rs:77) hands the closure to the 32-bit `bitmap::IntoIter::fold` (bitmap/iter.rs:287,
+`Iter.fold` of Iter.lean) and rebuilds the value as `((hi as u64) << 32) + (lo as u64)` — `+`, where `next` uses
+`util::join`'s `|`. -/
+
+namespace To64
+/-- iter.rs:77 `To64IntoIter::fold` (iter.rs:37 `To64Iter::fold` is the same text) -/
+def fold32 {β : Type} (c : To64 Inner.iter32) (init : β) (f : β → Nat → β) : β :=
+  _root_.Roaring.Iter.fold (show _root_.Roaring.Iter from c.inner) init (fun b lo => f b ((c.hi <<< 32) + lo))
+/-- iter.rs:92 `To64IntoIter::rfold` (iter.rs:52 `To64Iter::rfold`) -/
+def rfold32 {β : Type} (c : To64 Inner.iter32) (init : β) (f : β → Nat → β) : β :=
+  _root_.Roaring.Iter.rfold (show _root_.Roaring.Iter from c.inner) init (fun b lo => f b ((c.hi <<< 32) + lo))
+end To64
+
+namespace IntoIter
+/-- iter.rs:328 `fold` (`FlattenCompat::iter_fold`) -/
+def fold {β : Type} (it : IntoIter Inner.iter32) (init : β) (f : β → Nat → β) : β :=
+  let acc := match it.front with | some fr => fr.fold32 init f | none => init
+  let acc := it.iter.foldl (fun acc p => (to64 Inner.iter32 p).fold32 acc f) acc
+  match it.back with | some bk => bk.fold32 acc f | none => acc
+
+/-- iter.rs:344 `rfold` (`FlattenCompat::iter_rfold`) -/
+def rfold {β : Type} (it : IntoIter Inner.iter32) (init : β) (f : β → Nat → β) : β :=
+  let acc := match it.back with | some bk => bk.rfold32 init f | none => init
+  let acc := it.iter.reverse.foldl (fun acc p => (to64 Inner.iter32 p).rfold32 acc f) acc
+  match it.front with | some fr => fr.rfold32 acc f | none => acc
 end IntoIter
 
 end TIter
